@@ -350,7 +350,7 @@ METHODS = ['cosine', 'corr', 'rho-a', 'cosine_cov', 'corr_cov', 'spearman']
 
 
 def run(ctx):
-    n = ctx.n(180, 600)
+    n = ctx.n(180, 1500)
     for it in range(n):
         if ctx.out_of_time():
             ctx.notes.append(f'time budget reached after {it} rounds')
